@@ -32,7 +32,7 @@ CC_INT = ["max_age", "s_maxage", "stale_if_error", "stale_while_revalidate"]
 CC_STR = ["no_cache", "private"]
 CC_VALUES = [True, False, None, 0, 60, "120", "field", "a b"]
 CSP_ATTRS = ["default_src", "script_src", "img_src", "report_uri"]
-CSP_VALUES = ["'self'", "'none'", "https://example.com 'self'", None]
+CSP_VALUES = ["'self'", "'none'", "https://example.com 'self'", None, "*", "'self' data:", "https:", ""]
 WA_VALUES = ["xyz", "abc.def", "digest", "bearer", "realm one", "a,b"]
 SCALARS = ["age", "date", "expires", "last_modified", "retry_after", "content_length", "location", "etag", "content_type", "mimetype", "content_encoding",
            "access_control_allow_origin", "access_control_max_age", "access_control_allow_headers", "access_control_allow_methods", "access_control_expose_headers",
@@ -187,7 +187,11 @@ class ResponseViews(Scenario):
                         vio(f"{prop}/header-text-differs-from-view/after={after}", f"header {text!r}, view serialises to {v.to_header()!r}")
                 elif prop in ("cache_control", "content_security_policy", "content_security_policy_report_only"):
                     if dict(fresh) != dict(v):
-                        vio(f"{prop}/reread-view-differs/after={after}", f"re-read {dict(fresh)!r}, live {dict(v)!r}, header {text!r}")
+                        if prop != "cache_control" and {k_: x for k_, x in dict(v).items() if x != ""} == dict(fresh):
+                            # recorded finding V4: a directive without a value ("sandbox") is written but not read back
+                            vio("csp/valueless-directive-dropped-on-reread", f"{prop}: re-read {dict(fresh)!r}, live {dict(v)!r}, header {text!r}")
+                        else:
+                            vio(f"{prop}/reread-view-differs/after={after}", f"re-read {dict(fresh)!r}, live {dict(v)!r}, header {text!r}")
                     elif not v and text is not None and normalised[prop]:
                         vio(f"{prop}/header-left-behind-by-empty-view/after={after}", f"header {text!r}")
                     elif v and normalised[prop] and text != v.to_header():
@@ -257,10 +261,18 @@ class ResponseViews(Scenario):
                         if not (-n <= idx < n):
                             continue
                         other = m.find(a)
-                        if other >= 0 and other != idx % n:
-                            continue
                         v[idx] = a
-                        m.l[idx] = a
+                        if other >= 0 and other != idx % n:
+                            # a name that is already another member: the view must stay a set (where the name ends up is
+                            # not specified); the model follows the view, header coherence is checked as after any step
+                            got = list(v)
+                            lows = [x.lower() for x in got]
+                            rest = [x for j, x in enumerate(m.l) if j not in (other, idx % n)]
+                            if len(set(lows)) != len(lows) or len(v) != len(got) or a not in got or sorted(x for x in got if x != a) != sorted(rest):
+                                vio(f"{prop}/not-a-set-after-assigning-an-existing-member", f"{m.l!r} with [{idx}] = {a!r} became {got!r} (len {len(v)})")
+                            m.l[:] = got
+                        else:
+                            m.l[idx] = a
                         changed = True
                     elif what == "delitem":
                         if not (-n <= idx < n):
@@ -339,7 +351,7 @@ class ResponseViews(Scenario):
                     v = view("www_authenticate")
                     wa_before = (v.type, v.token, dict(v.parameters))
                     # "only one of parameters or token should have a value for a given scheme"
-                    if what in ("param_item", "param_attr", "params_assign", "params_inner") and v.token is not None:
+                    if what in ("param_item", "param_attr", "params_assign", "params_inner") and v.token:
                         v.token = None
                     if what == "set_token" and v.parameters:
                         v.parameters = {}
